@@ -6,7 +6,8 @@ CONSTANTS
   MaxPre = 1
   T = 5  QT = 5  FoCap = 20
   Ticks = FALSE  FwdStream = TRUE
-  DebitFirst = TRUE  CheckMatch = TRUE  StopAtDeadline = TRUE
+  PreWorks <- NoWork
+  DebitFirst = TRUE  CheckMatch = TRUE  StopAtDeadline = TRUE  LatchGuard = TRUE  StampFirst = TRUE
 INIT Init
 NEXT SimNext
 CHECK_DEADLOCK FALSE
